@@ -61,6 +61,28 @@ static inline DecResult dec_generic(dec_fn f, const Bytes &key, const Bytes &non
     return r;
 }
 
+// In-place variants (c == m), as the repository's own KAT harness uses every one-shot AEAD function:
+// one exact-size buffer of mlen+16 bytes holds the plaintext at its start and receives the ciphertext.
+static inline Bytes enc_generic_inplace(enc_fn f, const Bytes &key, const Bytes &nonce, const Bytes &ad, const Bytes &pt) {
+    Buf k(key), n(nonce), a(ad), io(pt.size() + 16, 0xAA);
+    if (!pt.empty()) memcpy(io.p, pt.data(), pt.size());
+    size_t clen = 0;
+    f(io.p, &clen, io.p, pt.size(), a.p, a.n, n.p, k.p);
+    return io.bytes();
+}
+static inline DecResult dec_generic_inplace(dec_fn f, const Bytes &key, const Bytes &nonce, const Bytes &ad, const Bytes &ct) {
+    Buf k(key), n(nonce), a(ad), io(ct);
+    size_t mlen = (size_t)-7;
+    DecResult r;
+    r.rc = f(io.p, &mlen, io.p, io.n, a.p, a.n, n.p, k.p);
+    r.mlen = mlen;
+    r.mlen_touched = mlen != (size_t)-7;
+    Bytes all = io.bytes();
+    r.out.assign(all.begin(), all.begin() + (ct.size() >= 16 ? ct.size() - 16 : 0));
+    r.out_untouched = false;
+    return r;
+}
+
 // ---- incremental AEAD
 #define INC_ALG(NAME, STATE)                                                                                         \
     struct Inc##NAME {                                                                                               \
@@ -227,6 +249,27 @@ struct IsapKey {
         else ascon80pq_isap_aead_encrypt(c.p, &clen, m.p, m.n, a.p, a.n, n.p, &u->c);
         if (clen_out) *clen_out = clen;
         return c.bytes();
+    }
+    Bytes encrypt_inplace(const Bytes &nonce, const Bytes &ad, const Bytes &pt) const {
+        Buf n(nonce), a(ad), io(pt.size() + 16, 0xAA);
+        if (!pt.empty()) memcpy(io.p, pt.data(), pt.size());
+        size_t clen = 0;
+        if (alg == 0) ascon128a_isap_aead_encrypt(io.p, &clen, io.p, pt.size(), a.p, a.n, n.p, &u->a);
+        else if (alg == 1) ascon128_isap_aead_encrypt(io.p, &clen, io.p, pt.size(), a.p, a.n, n.p, &u->b);
+        else ascon80pq_isap_aead_encrypt(io.p, &clen, io.p, pt.size(), a.p, a.n, n.p, &u->c);
+        return io.bytes();
+    }
+    DecResult decrypt_inplace(const Bytes &nonce, const Bytes &ad, const Bytes &ct) const {
+        Buf n(nonce), a(ad), io(ct);
+        size_t mlen = (size_t)-7;
+        DecResult r;
+        if (alg == 0) r.rc = ascon128a_isap_aead_decrypt(io.p, &mlen, io.p, io.n, a.p, a.n, n.p, &u->a);
+        else if (alg == 1) r.rc = ascon128_isap_aead_decrypt(io.p, &mlen, io.p, io.n, a.p, a.n, n.p, &u->b);
+        else r.rc = ascon80pq_isap_aead_decrypt(io.p, &mlen, io.p, io.n, a.p, a.n, n.p, &u->c);
+        r.mlen = mlen; r.mlen_touched = true; r.out_untouched = false;
+        Bytes all = io.bytes();
+        r.out.assign(all.begin(), all.begin() + (ct.size() >= 16 ? ct.size() - 16 : 0));
+        return r;
     }
     DecResult decrypt(const Bytes &nonce, const Bytes &ad, const Bytes &ct) const {
         Buf n(nonce), a(ad), c(ct);
